@@ -451,7 +451,8 @@ class GridBase(metaclass=ABCMeta):
             (
                 self.__class__.__name__,
                 self.shape,
-                self.axes_bounds,
+                # hash the bytes since floats have colliding hashes, e.g. -1. and -2.
+                np.array(self.axes_bounds, dtype=float).tobytes(),
                 tuple(self.periodic),
             )
         )
